@@ -707,7 +707,7 @@ struct Engine {
             }
         }
         if (r == z3::unknown && g_arithUsed)
-            r = splitCheck(wantModel, 0);
+            r = splitCheck(wantModel, 4096);
         S->pop();
         if (r == z3::sat) st.sat++; else if (r == z3::unsat) st.unsat++;
         double dt = std::chrono::duration<double>(std::chrono::steady_clock::now() - t0).count();
@@ -748,7 +748,7 @@ struct Engine {
         for (unsigned i = 0; i < n; i++)
             nonlinearVars(e.arg(i), seen, out, nl);
     }
-    z3::check_result splitCheck(bool wantModel, int depth)
+    z3::check_result splitCheck(bool wantModel, long budget)
     {
         std::set<unsigned> seen;
         std::map<unsigned, z3::expr> vars;
@@ -759,7 +759,7 @@ struct Engine {
         for (auto &kv : vars) {
             auto &b = bounds.at(kv.first);
             mpz_class w = b.hi - b.lo + 1;
-            if (w <= 1 || w > 600)
+            if (w <= 1 || w > budget)
                 continue;
             // skip variables already fixed by an equation at this level
             if (!best || w < bw) {
@@ -780,8 +780,8 @@ struct Engine {
             S->add(var == Z.int_val(v.get_str().c_str()));
             bounds.at(id).lo = bounds.at(id).hi = v;
             z3::check_result r = S->check();
-            if (r == z3::unknown && depth < 1)
-                r = splitCheck(wantModel, depth + 1);
+            if (r == z3::unknown && budget / (long)bw.get_si() >= 2)
+                r = splitCheck(wantModel, budget / (long)bw.get_si());
             else if (r == z3::sat && wantModel)
                 mdl.reset(new z3::model(S->get_model()));
             S->pop();
